@@ -157,6 +157,97 @@ func (x *Exec) hypothesesAndGoal(o *Oblig) ([]*Term, *Term) {
 	if !o.ExpectSat {
 		goal = tb.RewriteUnder(o.Goal, lits, nlits, memo)
 	}
+	// Unit propagation: hypotheses that are literals (after the rewriting above) are used like
+	// path-condition literals in every OTHER hypothesis and in the goal; they stay in the list.
+	for round := 0; round < 3; round++ {
+		units := map[int]bool{}
+		nunits := map[int]bool{}
+		n := 0
+		for _, h := range out {
+			if h.Op == "or" || h.Op == "and" || h.Op == "ite" || h.IsFalse() || h.IsTrue() {
+				continue
+			}
+			if lits[h.id] {
+				continue
+			}
+			lits[h.id] = true
+			units[h.id] = true
+			if h.Op == "not" {
+				nlits[h.Args[0].id] = true
+				nunits[h.Args[0].id] = true
+			} else {
+				nlits[tb.Not(h).id] = true
+				nunits[tb.Not(h).id] = true
+			}
+			n++
+		}
+		if n == 0 {
+			break
+		}
+		memo = map[int]*Term{}
+		var out2 []*Term
+		seen2 := map[int]bool{}
+		for _, h := range out {
+			if lits[h.id] && h.Op != "or" && h.Op != "and" {
+				if !seen2[h.id] {
+					seen2[h.id] = true
+					out2 = append(out2, h)
+				}
+				continue
+			}
+			r := tb.RewriteUnder(h, lits, nlits, memo)
+			for _, c := range conjuncts(r, nil) {
+				if c.IsTrue() || seen2[c.id] {
+					continue
+				}
+				seen2[c.id] = true
+				out2 = append(out2, c)
+			}
+		}
+		out = out2
+		if !o.ExpectSat {
+			goal = tb.RewriteUnder(goal, lits, nlits, memo)
+		}
+	}
+	// Truncation round trips: a hypothesis  ext(extract[k:0](T)) = T  (the value survives a
+	// narrowing conversion, e.g. int(int32(n)) == n) lets every occurrence of the left side
+	// be replaced by T.  The hypothesis itself is kept, so this is equals-for-equals.
+	sub := map[int]*Term{}
+	for _, h := range out {
+		if h.Op != "=" {
+			continue
+		}
+		for k := 0; k < 2; k++ {
+			l, r := h.Args[k], h.Args[1-k]
+			if (l.Op == "sext" || l.Op == "zext") && l.Args[0].Op == "extract" && l.Args[0].P2 == 0 && l.Args[0].Args[0] == r {
+				sub[l.id] = r
+			}
+		}
+	}
+	if len(sub) > 0 {
+		memo2 := map[int]*Term{}
+		for id, t := range sub {
+			memo2[id] = t
+		}
+		none := map[int]bool{}
+		var out2 []*Term
+		for _, h := range out {
+			if h.Op == "=" && (sub[h.Args[0].id] == h.Args[1] || sub[h.Args[1].id] == h.Args[0]) {
+				out2 = append(out2, h)
+				continue
+			}
+			r := tb.RewriteUnder(h, none, none, memo2)
+			for _, c := range conjuncts(r, nil) {
+				if !c.IsTrue() {
+					out2 = append(out2, c)
+				}
+			}
+		}
+		out = out2
+		if !o.ExpectSat {
+			goal = tb.RewriteUnder(goal, none, none, memo2)
+		}
+	}
 	return out, goal
 }
 
@@ -583,6 +674,27 @@ func SolveAll(units []*UnitResult, so solveOpts) {
 					return
 				}
 			}
+			tried := map[string]bool{}
+			if so.timeoutS > 10 && !o.ExpectSat && so.agree <= 1 {
+				// stage 1: the heap-filtered slice (first in small[i] when it exists) - the
+				// variant that most often decides size/cursor arithmetic
+				for _, fs := range small[i] {
+					if !strings.HasSuffix(fs, "_relh.smt2") {
+						continue
+					}
+					so1 := so
+					so1.timeoutS = 8
+					st, sv, secs, _, _ := solveOne(fs, so1, false, smallLia[fs])
+					o.Seconds += secs
+					tried[fs] = true
+					if st == "unsat" {
+						o.Status, o.Solver, o.Output = st, sv+"@relh", ""
+						o.Sliced = true
+						cleanup()
+						return
+					}
+				}
+			}
 			if so.timeoutS > 10 && !o.ExpectSat {
 				soA := so
 				soA.timeoutS = 10
@@ -595,12 +707,16 @@ func SolveAll(units []*UnitResult, so solveOpts) {
 				}
 				// stage B: subsets of the hypotheses (only an unsat answer counts)
 				for _, fs := range small[i] {
+					if tried[fs] {
+						continue
+					}
 					so1 := so
 					so1.timeoutS = 8
 					st, sv, secs, _, _ := solveOne(fs, so1, false, smallLia[fs])
 					o.Seconds += secs
 					if st == "unsat" {
-						o.Status, o.Solver, o.Output = st, sv, ""
+						tag := strings.TrimSuffix(fs[strings.LastIndex(fs, "_")+1:], ".smt2")
+						o.Status, o.Solver, o.Output = st, sv+"@"+tag, ""
 						o.Sliced = true
 						cleanup()
 						return
